@@ -8,7 +8,10 @@ weighted_mean_and_sd and _msd_diffusion_covariance.  The model receives the exac
 implementation actually used (positions read back from the KymoTrack, line time, blur constant).
 Simulated Brownian groups (kind 'brownian') are the exception: there the library builds the tracks AND their kymograph
 (simulation/diffusion.py), several simulations are run in a row in the same process (a session), and every observation is made
-on the group a simulation returned; the model and the oracle get the line time the simulation was asked for."""
+on the group a simulation returned; the model and the oracle get the line time the simulation was asked for.
+The frame indices of a track are handed to KymoTrack in the integer storage type of the case (`fdtype`: int8..int64, uint8..uint64,
+a plain list); model and oracle get the integers.  With max_lag=None (the library chooses the number of lags) a track is
+also compared with the ensemble of identical copies of itself ("copyopt" / the `copies` sub-case, see copies_auto)."""
 import itertools
 import math
 import warnings
@@ -46,6 +49,7 @@ THEOREMS = [
     "Verif.C09.weighted_identical",
     "Verif.C09.ensemble_identical_msd",
     "Verif.C09.ensemble_identical_cve",
+    "Verif.C09.ensemble_identical_curve",
     "Verif.C09.ols_scale",
     "Verif.C09.ols_time_scale",
 ]
@@ -85,12 +89,30 @@ def positions_of(coords, px):
     return (np.array(coords, dtype=float) * px).tolist()
 
 
+# The integer type a track's frame indices are STORED in (KymoTrack accepts any integer array_like and keeps it as it is):
+# what the tracker produces (int64), what image / file readers produce (narrow and unsigned types: HDF5 / TIFF frame
+# numbers, np.nonzero on 32-bit platforms, ...), or a plain list.  A frame index is an integer; the property does not depend
+# on how it is stored, so the model and the oracle are given the same integers whatever the storage type.
+FDTYPES = ["int64", "int32", "int16", "int8", "uint8", "uint16", "uint32", "uint64", "list"]
+
+
+def stored_frames(frames, want):
+    """the frame indices as an array of the requested storage type (or a plain list); int64 when they do not fit it"""
+    if want == "list":
+        return [int(f) for f in frames]
+    if want and want != "int64":
+        info = np.iinfo(want)
+        if all(info.min <= f <= info.max for f in frames):
+            return np.array(frames, dtype=want)
+    return np.array(frames, dtype=int)
+
+
 def make_track(call, j=None):
     _, _, KymoTrack, _ = _lk()
     frames = call["frames"] if j is None else call["frames"][j]
     coords = call["coords"] if j is None else call["coords"][j]
     k = blank_kymo(call["dt"], call["px"], call["blur"])
-    return KymoTrack(np.array(frames, dtype=int), np.array(coords, dtype=float), k, "red", 0)
+    return KymoTrack(stored_frames(frames, call.get("fdtype")), np.array(coords, dtype=float), k, "red", 0)
 
 
 # ------------------------------------------------------------------ expansion of a case into calls
@@ -135,7 +157,8 @@ def expand(case):
         variants = ["base"] + [v for v in VARIANTS[1:] if v in case.get("variants", [])]
         for v in variants:
             frames, coords, px, dt = _tf(v, case, case["frames"], case["coords"], 0)
-            base = {"v": v, "frames": frames, "coords": coords, "px": px, "dt": dt, "blur": case["blur"]}
+            base = {"v": v, "frames": frames, "coords": coords, "px": px, "dt": dt, "blur": case["blur"],
+                    "fdtype": case.get("fdtype")}
             a2 = case["meta"]["a"] ** 2 if v == "scale" else 1.0
             for op in case["ops"]:
                 c = dict(base, op=op)
@@ -147,6 +170,7 @@ def expand(case):
                 if op == "ols" and (v != "scale" or pow2(case["meta"]["a"])):
                     # GLS / automatic lag selection: exact under power-of-two scaling, so asserted there too
                     c["extras"] = case.get("extras", [])
+                    c["copies_k"] = case.get("copies_k", 2)
                 calls.append(c)
     elif kind == "ens":
         variants = ["base"] + [v for v in VARIANTS[1:] if v in case.get("variants", [])]
@@ -156,7 +180,7 @@ def expand(case):
                 f2, x2, px, dt = _tf(v, case, f, x, j)
                 fs.append(f2)
                 cs.append(x2)
-            base = {"v": v, "frames": fs, "coords": cs, "px": px, "dt": dt, "blur": case["blur"]}
+            base = {"v": v, "frames": fs, "coords": cs, "px": px, "dt": dt, "blur": case["blur"], "fdtype": case.get("fdtype")}
             for op in case["ops"]:
                 c = dict(base, op=op, L=case.get("L"), minc=case.get("minc", 2))
                 if op == "ensols":
@@ -168,14 +192,16 @@ def expand(case):
         if case.get("copies"):
             j, k = case["copies"]["track"], case["copies"]["k"]
             one = {"v": "single", "frames": case["frames"][j], "coords": case["coords"][j], "px": case["px"],
-                   "dt": case["dt"], "blur": case["blur"]}
+                   "dt": case["dt"], "blur": case["blur"], "fdtype": case.get("fdtype")}
             grp = {"v": "copies", "frames": [case["frames"][j]] * k, "coords": [case["coords"][j]] * k,
-                   "px": case["px"], "dt": case["dt"], "blur": case["blur"]}
+                   "px": case["px"], "dt": case["dt"], "blur": case["blur"], "fdtype": case.get("fdtype")}
+            # "olsopt" on both sides: max_lag=None, the library chooses the number of lags for the track and for its copies
             calls.append(dict(one, op="msd", L=case.get("L")))
             calls.append(dict(one, op="cve"))
-            calls.append(dict(one, op="ols", L=case.get("L_ols", case.get("L"))))
+            calls.append(dict(one, op="ols", L=case.get("L_ols", case.get("L")), extras=["olsopt"]))
             for op in ("ensmsd", "enscve", "ensols"):
-                calls.append(dict(grp, op=op, L=case.get("L_ols", case.get("L")) if op == "ensols" else case.get("L"), minc=2))
+                calls.append(dict(grp, op=op, L=case.get("L_ols", case.get("L")) if op == "ensols" else case.get("L"), minc=2,
+                                  **({"extras": ["olsopt"]} if op == "ensols" else {})))
     elif kind == "wmean":
         calls.append({"v": "base", "op": "wmean", "means": case["means"], "counts": case["counts"]})
     elif kind == "cov":
@@ -341,6 +367,8 @@ def run_call(c):
                         e = tr.estimate_diffusion("gls", max_lag=c["L"])
                     elif name == "glsall":
                         e = tr.estimate_diffusion("gls")
+                    elif name == "copyopt":  # the ensemble of k identical copies of this track, number of lags chosen by the library
+                        e = KymoTrackGroup([make_track(c) for _ in range(c.get("copies_k", 2))]).ensemble_diffusion("ols")
                     else:
                         e = tr.estimate_diffusion("ols")
                     ex.append(f"{name}={rat(e.value)},{rat(float(e.std_err) ** 2)},{rat(e.localization_variance)},{e.num_lags}")
@@ -729,6 +757,59 @@ def auto_lags_line(extra, pts, dt, what):
     return f"{what} (num_lags={k}, lags {[int(l) for l, _ in used]}): {msg}" if msg else None
 
 
+def sign_ties(pts):
+    """pts = (lag, msd) points in lag order, exact.  Is, for some number p >= 2 of leading points, the intercept or the slope
+    of the exact least-squares line through the first p points zero (within 1e-7 of the size of its terms)?  The heuristic
+    for the number of lags branches on the SIGNS of these two numbers (localisation error 0 / infinite / their ratio); on
+    such a track (a constant one, a few coarse-grid patterns) the branch is taken on the rounding noise of the fit, and two
+    computations of the same MSD curve that differ in the last bit may legitimately take different branches"""
+    K, al, be, sy, sly, ga, de = 0, Fr(0), Fr(0), Fr(0), Fr(0), Fr(0), Fr(0)
+    for l, y in pts:
+        K, al, be, sy, sly, ga, de = K + 1, al + l, be + l * l, sy + y, sly + l * y, ga + abs(y), de + abs(l * y)
+        den = K * be - al * al
+        if K < 2 or den == 0:
+            continue
+        if abs(be * sy - al * sly) <= Fr(1, 10**7) * (be * ga + al * de) or abs(K * sly - al * sy) <= Fr(1, 10**7) * (K * de + al * ga):
+            return True
+    return False
+
+
+_TIES = {}
+
+
+def has_sign_tie(frames, pos, pts=None):
+    """sign_ties of the complete MSD curve of a track (remembered: the coverage report asks again)"""
+    key = (tuple(frames), tuple(pos))
+    if key not in _TIES:
+        if len(_TIES) > 200000:
+            _TIES.clear()
+        _TIES[key] = sign_ties(pts if pts is not None else [(Fr(e[0]), e[1]) for e in brute_msd(frames, pos, None)])
+    return _TIES[key]
+
+
+def copies_auto(single, copies, frames, pos, S, what, pts=None):
+    """'an ensemble of identical tracks reproduces the single-track value' when the NUMBER OF LAGS is left to the library
+    (max_lag=None) on both sides.  `single` / `copies` = 'value,var,lv,num_lags' (or an exception name) as reported by
+    KymoTrack.estimate_diffusion("ols") and by KymoTrackGroup([track] * k).ensemble_diffusion("ols").  The ensemble MSD of
+    identical tracks IS the single-track MSD curve, so the same number of lags has to come out and the same line.
+    `pts` = all (lag, msd) points of the track, exact, if the caller has them.  Asserted for tracks without missing frames:
+    with missing frames the library itself warns (on both paths) that the automatic number of lags is unreliable, and not
+    asserted on tracks whose fits have a sign tie (sign_ties)"""
+    if single is None or copies is None or any(b - a != 1 for a, b in zip(frames, frames[1:])):
+        return None
+    if has_sign_tie(frames, pos, pts):
+        return None
+    xs, xc = single.split(","), copies.split(",")
+    if len(xs) < 4 or len(xc) < 4:
+        if len(xs) < 4 and len(xc) < 4:
+            return None  # too few points for the heuristic, on both sides
+        return f"{what}: the single track gives {single[:60]}, the ensemble of its copies {copies[:60]}"
+    if xs[3] != xc[3]:
+        return (f"{what}: the single track is fitted with {xs[3]} lags, the ensemble of its copies with {xc[3]} "
+                f"(D = {float(ptok(xs[0]))!r} vs {float(ptok(xc[0]))!r})")
+    return same_est("ok " + " ".join([xc[0], "0/1", xc[2]]), "ok " + " ".join([xs[0], "0/1", xs[2]]), (1, 1, 1), S, what)
+
+
 def oracle(case, ia):
     calls = calls_of(case)
     kind = case["kind"]
@@ -820,8 +901,12 @@ def oracle(case, ia):
                             return "ols: " + msg
                 auto = parse_extras(ans("base", op)).get("olsopt")
                 if auto:
-                    msg = auto_lags_line(auto, [(Fr(e[0]), e[1]) for e in brute_msd(frames, pos, None)], case["dt"],
-                                         "ols with the automatic number of lags")
+                    full = [(Fr(e[0]), e[1]) for e in brute_msd(frames, pos, None)]
+                    msg = auto_lags_line(auto, full, case["dt"], "ols with the automatic number of lags")
+                    if msg:
+                        return msg
+                    msg = copies_auto(auto, parse_extras(ans("base", op)).get("copyopt"), frames, pos, S,
+                                      f"ensemble of {case.get('copies_k', 2)} identical tracks, automatic number of lags", full)
                     if msg:
                         return msg
         # physical symmetries, evaluated on the implementation's own answers
@@ -1018,6 +1103,11 @@ def oracle_ens(case, calls, ia, idx, ans, meta, S0, S):
             msg = same_est(" ".join(eo.split()[:2] + ["0/1"] + eo.split()[3:4]), " ".join(so.split()[:2] + ["0/1"] + so.split()[3:4]), (1, 1, 1), S, "ensemble ols of identical tracks")
             if msg:
                 return msg
+        fj, pj = tracks[case["copies"]["track"]]
+        msg = copies_auto(parse_extras(so).get("olsopt"), parse_extras(eo).get("olsopt"), fj, pj, S,
+                          f"ensemble of {k} identical tracks, automatic number of lags")
+        if msg:
+            return msg
     return None
 
 
@@ -1086,6 +1176,8 @@ def tags(case, r):
 
 def shrink(case):
     k = case["kind"]
+    if k in ("track", "ens") and case.get("fdtype") not in (None, "int64"):
+        yield dict(case, fdtype="int64")  # does the storage type of the frame indices matter?
     if k == "track":
         n = len(case["frames"])
         if len(case.get("variants", [])) > 1:
@@ -1265,6 +1357,65 @@ def gen_ens_case(rng, tmax, nmax, stream="random", shared=False):
     return case
 
 
+def contiguous_frames(frames):
+    return all(b - a == 1 for a, b in zip(frames, frames[1:]))
+
+
+def with_copies(case):
+    """wherever a single track is fitted with the automatic number of lags ("olsopt") and has no missing frames, the ensemble
+    of k identical copies of it is fitted with the automatic number of lags as well ("copyopt"); no random draw"""
+    if "olsopt" in case.get("extras", []) and "copyopt" not in case["extras"] and contiguous_frames(case["frames"]):
+        case["extras"] = list(case["extras"]) + ["copyopt"]
+        case["copies_k"] = (2, 3, 5)[len(case["frames"]) % 3]
+    return case
+
+
+# reduced localisation error x = sigma^2 / (D dt) of a generated track: from diffusion dominated (the regime of the tracks
+# above: the optimal number of lags is 2..3 and the same for slope and intercept) over the crossover to localisation-noise
+# dominated and pure noise (D = 0), where the optimal numbers of lags grow with the track length (up to ~0.56 N for the slope,
+# ~N^0.5 for the intercept) and differ from each other and from the starting guess N // 10
+NOISE_RATIOS = [0.1, 1.0, 3.0, 10.0, 30.0, 100.0, 1e3, 1e4, float("inf")]
+
+
+def gen_noisy_case(rng, nmax):
+    """a track without missing frames, 20..nmax points: a random walk observed with localisation noise, at a reduced
+    localisation error between 0.1 and infinity (NOISE_RATIOS), on the dyadic grid; OLS with an explicit max_lag (the model),
+    with the automatic number of lags, and the ensemble of identical copies with the automatic number of lags"""
+    n = rng.choice([20, 30, 40, 50, 60, 80, 100, rng.randint(20, nmax), rng.randint(40, nmax)])
+    n = min(n, nmax)
+    x = rng.choice(NOISE_RATIOS)
+    sig = rng.choice([0.25, 1.0, 2.0])
+    step = 0.0 if math.isinf(x) else math.sqrt(2 * sig * sig / x)
+    drift = rng.choice([0.0, 0.0, 0.0, 0.02 * sig])
+    p = rng.randint(-512, 2048) / 64
+    coords = []
+    for i in range(n):
+        p += rng.normal() * step + drift
+        coords.append(round((p + rng.normal() * sig) * 64) / 64)
+    f0 = rng.choice([0, 0, 1, 7, rng.randint(0, 500)])
+    case = {"stream": "random", "kind": "track", "frames": list(range(f0, f0 + n)), "coords": coords, "exact": True,
+            "px": rng.choice(EXACT_PX), "dt": rng.choice(DTS), "blur": rng.choice(BLURS), "meta": gen_meta(rng, True),
+            "noise_ratio": "inf" if math.isinf(x) else x}
+    case["variants"] = rng.sample(list(BASIC), 2)[:2 if n <= 60 else 1]  # (the model's MSD is O(n^2) per lag)
+    case["ops"] = ["ols"] + rng.sample(["kmsd", "cve", "msd"], 1)
+    case["L_msd"] = rng.choice([None, 2, n - 1, n + 5]) if n <= 50 else rng.randint(1, 4)
+    case["L_kmsd"] = rng.choice([None, 0, n - 1, n, 1000]) if n <= 50 else rng.randint(1, 4)
+    case["L_ols"] = rng.choice([2, 3, 4, 5])
+    case["lv"], case["vlv"] = 1 / 64, 1 / 1024
+    case["extras"] = ["olsopt"]
+    return with_copies(case)
+
+
+def pick_storage(rng, case):
+    """(drawn after everything else of a case) the integer type the frame indices are stored in, and now and then a
+    KymoTrack.msd request for at least as many lags as the track has (all of them have to come back, and nothing else)"""
+    case["fdtype"] = rng.choice(FDTYPES + ["int64", "int64", "int64", "uint8", "uint16"])
+    if case["kind"] == "track" and "kmsd" in case["ops"] and len(case["frames"]) <= 60 and rng.chance(0.3):
+        span = case["frames"][-1] - case["frames"][0]
+        case["L_kmsd"] = rng.choice([None, span, span + 5, 1000])
+    return case
+
+
 # Offsets from the coordinate origin that are huge compared to any step (a kymograph position is a legitimate input wherever
 # the origin is: stage coordinates, concatenated fields of view, nm instead of um).  All are integers below 2^37, so a 1/64-pixel
 # grid position plus (a small multiple of) the offset, times a power-of-two pixel size and a scale in {3, 1.5, 2^k}, is still an
@@ -1373,10 +1524,12 @@ def small_scope(quick):
                     continue
                 i += 1  # the "far" variant cycles through the offsets 2^20 .. 2^36, 1e8 (both signs)
                 meta = {"c": 5 / 64, "k": 3, "a": 2.0, "tc": 0.5, "far": FAR_OFFSETS[i % len(FAR_OFFSETS)] * (-1) ** (i // len(FAR_OFFSETS))}
+                # the storage type of the frame indices cycles through FDTYPES; every third track is asked for ALL its lags
+                # through KymoTrack.msd (max_lag=None / more than there are), the others for two
                 yield {"stream": "small-scope", "kind": "track", "frames": list(frames), "coords": [0.0] + [t / 4 for t in tail],
                        "exact": True, "px": 0.5, "dt": 0.25, "blur": 1 / 6, "meta": meta, "variants": list(VARIANTS[1:]),
-                       "ops": list(ALL_OPS), "L_msd": None, "L_kmsd": 2, "L_ols": 3 if n > 3 else 2, "lv": 1 / 64,
-                       "vlv": 1 / 1024, "extras": []}
+                       "ops": list(ALL_OPS), "L_msd": None, "L_kmsd": (2, None, 2, 2, 9, 2)[i % 6], "L_ols": 3 if n > 3 else 2,
+                       "lv": 1 / 64, "vlv": 1 / 1024, "extras": [], "fdtype": FDTYPES[(i // 6) % len(FDTYPES)]}
 
 
 def small_scope_ens(quick):
@@ -1396,7 +1549,7 @@ def small_scope_ens(quick):
                 yield {"stream": "small-scope", "kind": "ens", "frames": [list(fa), list(fb)],
                        "coords": [[xa[f] / 4 for f in fa], [xb[f] / 4 for f in fb]], "exact": True, "px": 0.5, "dt": 0.25,
                        "blur": 0, "meta": meta, "L": None, "L_ols": L, "minc": 2, "ops": ["ensmsd", "ensols"],
-                       "variants": ["far"] if i % 6 == 0 else []}
+                       "variants": ["far"] if i % 6 == 0 else [], "fdtype": FDTYPES[(i // 2) % len(FDTYPES)]}
 
 
 def malformed(rng, count):
@@ -1498,13 +1651,13 @@ def _cases(tier, rng):
             c["ops"], c["variants"], c["extras"] = ["msd", "cve"], ["mirror"], []
             c["L_msd"] = sub.randint(1, 4)
         c["subseed"] = i
-        yield c
+        yield pick_storage(sub, with_copies(c))
     r = rng.fork("c09-ens")
     for i in range(70 if quick else 1200):
         sub = r.fork(i)
         c = gen_ens_case(sub, 12 if quick else 50, 30)
         c["subseed"] = i
-        yield c
+        yield pick_storage(sub, c)
     yield from small_scope_ens(quick)
     r = rng.fork("c09-wmean")
     for i in range(60 if quick else 1500):
@@ -1530,13 +1683,13 @@ def _cases(tier, rng):
         sub = r.fork(i)
         c = gen_ens_case(sub, 8 if quick else 30, 16 if quick else 24, shared=True)
         c["subseed"] = i
-        yield c
+        yield pick_storage(sub, c)
     r = rng.fork("c09-tracks-scheme")  # single tracks on a periodic sampling scheme: the k-th lag is not the lag k
     for i in range(30 if quick else 600):
         sub = r.fork(i)
         c = gen_track_case(sub, 24 if quick else 40, scheme=True)
         c["subseed"] = i
-        yield c
+        yield pick_storage(sub, with_copies(c))
     r = rng.fork("c09-far")  # tracks and groups far from the coordinate origin (offset >> step size), see make_far
     for i in range(60 if quick else 800):
         sub = r.fork(i)
@@ -1546,7 +1699,13 @@ def _cases(tier, rng):
             c = gen_track_case(sub, 30 if quick else 60, scheme=sub.chance(0.2))
         c = make_far(sub, c)
         c["subseed"] = i
-        yield c
+        yield pick_storage(sub, with_copies(c) if c["kind"] == "track" else c)
+    r = rng.fork("c09-noisy")  # long tracks from diffusion dominated to pure localisation noise, see gen_noisy_case
+    for i in range(32 if quick else 300):
+        sub = r.fork(i)
+        c = gen_noisy_case(sub, 80 if quick else 128)
+        c["subseed"] = i
+        yield pick_storage(sub, c)
 
 
 def lag_holes(case):
@@ -1572,8 +1731,58 @@ def extra_coverage(results):
     blur, groups = {}, {}
     dist = {}  # largest |position| / position range of a call: how far from the origin relative to the displacements
     sess = {"sessions": 0, "simulations": 0, "by_mode": {}, "closest_pair_of_distinct_line_times_in_or_before_a_session": {}}
+    storage, all_lags = {}, {}  # storage type of the frame indices (as actually used by a call); KymoTrack.msd asked for >= all lags
+    auto = {"compared": 0, "not_asserted_missing_frames": 0, "not_asserted_sign_tie": 0, "too_few_points_or_error_on_both_sides": 0,
+            "compared_by_track_length": {}, "compared_by_num_lags_vs_start_guess": {}, "noise_ratio_of_generated_tracks": {}}
     for r in results:
         c = r["case"]
+        if c["kind"] in ("track", "ens"):
+            for call, a in zip(expand(c), r["impl"]):
+                if call["op"] in ("msd", "wmean", "cov"):
+                    continue
+                for f in (call["frames"] if call["op"].startswith("ens") else [call["frames"]]):
+                    st = stored_frames(f, call.get("fdtype"))
+                    key = "list" if isinstance(st, list) else str(st.dtype)
+                    storage[key] = storage.get(key, 0) + 1
+                if call["op"] == "kmsd" and a.startswith("ok "):
+                    f = call["frames"]
+                    nl = len({y - x for i, x in enumerate(f) for y in f[i + 1:]})
+                    L = call["L"] if call["L"] else len(f)
+                    key = ("all lags requested" if L >= nl else "fewer") if L > 0 else "negative max_lag"
+                    all_lags.setdefault(key, {})
+                    dk = "list" if isinstance(stored_frames(f, call.get("fdtype")), list) else str(stored_frames(f, call.get("fdtype")).dtype)
+                    all_lags[key][dk] = all_lags[key].get(dk, 0) + 1
+                # the ensemble of identical copies with the automatic number of lags (copies_auto)
+                pair = None
+                if call["op"] == "ols" and call["v"] in ("base", "single"):
+                    ex = parse_extras(a)
+                    if call["v"] == "base" and "copyopt" in ex and "olsopt" in ex:
+                        pair = (ex["olsopt"], ex["copyopt"])
+                    elif call["v"] == "single" and "olsopt" in ex:
+                        eo = [x for cl, x in zip(expand(c), r["impl"]) if cl["v"] == "copies" and cl["op"] == "ensols"]
+                        if eo and "olsopt" in parse_extras(eo[0]):
+                            pair = (ex["olsopt"], parse_extras(eo[0])["olsopt"])
+                if pair:
+                    f = call["frames"]
+                    if not contiguous_frames(f):
+                        auto["not_asserted_missing_frames"] += 1
+                    elif len(pair[0].split(",")) < 4 and len(pair[1].split(",")) < 4:
+                        auto["too_few_points_or_error_on_both_sides"] += 1
+                    elif has_sign_tie(f, frs(positions_of(call["coords"], call["px"]))):
+                        auto["not_asserted_sign_tie"] += 1
+                    else:
+                        auto["compared"] += 1
+                        n = len(f)
+                        b = "5-19" if n < 20 else "20-39" if n < 40 else "40-79" if n < 80 else ">=80"
+                        auto["compared_by_track_length"][b] = auto["compared_by_track_length"].get(b, 0) + 1
+                        x = pair[0].split(",")
+                        if len(x) >= 4:
+                            k = int(x[3])
+                            b = "2" if k == 2 else "<= N//10" if k <= n // 10 else "<= N//4" if k <= n // 4 else "> N//4"
+                            auto["compared_by_num_lags_vs_start_guess"][b] = auto["compared_by_num_lags_vs_start_guess"].get(b, 0) + 1
+            if "noise_ratio" in c:
+                d_ = auto["noise_ratio_of_generated_tracks"]
+                d_[str(c["noise_ratio"])] = d_.get(str(c["noise_ratio"]), 0) + 1
         if c["kind"] == "brownian":
             sess["sessions"] += 1
             sess["simulations"] += len(sims_of(c))
@@ -1617,6 +1826,9 @@ def extra_coverage(results):
             "cases_whose_fitted_lags_skip_a_value": holes,
             "msd_calls_by_distance_from_origin_over_position_range": dist,
             "simulation_sessions": sess,
+            "frame_index_storage_types_of_kymotrack_calls": storage,
+            "kymotrack_msd_calls_by_requested_lags_and_storage_type": all_lags,
+            "identical_copies_with_automatic_number_of_lags": auto,
             "tolerance": "1e-9 * scale (scale computed by the model from absolute values of every term)",
             "exhaustive": False,
             "exhaustive_note": "the small-scope stream enumerates its finite space completely on thorough (strided on quick); random streams do not"}
@@ -1638,7 +1850,14 @@ RULE = (
     "tracks likewise); tracks and groups FAR from the coordinate origin (offset 2^18..2^36, 1e8 >> step size; base positions "
     "there - dyadic grid or arbitrary doubles - and/or an exact translation there as the extra variant 'far', every track of a "
     "group by its own amount; also in both small scopes; now and then a frame shift of 2^20..2^31), where only a formula in "
-    "terms of displacements keeps its accuracy; direct weighted_mean_and_sd and _msd_diffusion_covariance calls; seeded Brownian "
+    "terms of displacements keeps its accuracy; the frame indices of every track / group case are stored in an integer type "
+    "drawn from int8..int64, uint8..uint64, plain list (int64 when they do not fit; cycled in both small scopes) and KymoTrack.msd "
+    "is asked for all lags / more lags than exist on a third of the small scope and ~30% of the random tracks; long tracks "
+    "without missing frames (20-80 points, thorough -128) from diffusion dominated to pure localisation noise (reduced "
+    "localisation error 0.1..1e4, inf), where the automatic number of lags grows with the track and differs for slope and "
+    "intercept; wherever a track without missing frames is fitted with max_lag=None, the ensemble of 2/3/5 identical copies of "
+    "it is fitted with max_lag=None too and must report the same number of lags and the same line (also in the identical-copies "
+    "sub-case of the groups); direct weighted_mean_and_sd and _msd_diffusion_covariance calls; seeded Brownian "
     "simulation SESSIONS: 2-3 simulate_diffusive_tracks calls in a row in the one process of the run (which is itself one session: "
     "every case also records the line times simulated before it and re-simulates them when replayed alone), with line times "
     "0.1 us..5 s that are mostly close to each other - equal when rounded/truncated to 1..6 decimals though they differ by a "
@@ -1657,10 +1876,16 @@ TRUSTED = [
     "numpy np.unique / meshgrid / boolean selection / np.diff / np.mean semantics as transcribed in lean/Verif/Model/C09.lean",
 ]
 ASSUMPTIONS = [
-    "frame indices of a track are strictly increasing integers (hypothesis Increasing of msd_def; KymoTrack data always are)",
+    "frame indices of a track are strictly increasing integers (hypothesis Increasing of msd_def; KymoTrack data always are); "
+    "the integer type they are stored in is part of the input of the implementation only (int8..uint64, list) - the model and the oracle work on the integers",
     "theorems are over Q: they hold for the exact rational value of every double input, not for the rounded float arithmetic",
     "outside the model (oracle/metamorphic exploration only): GLS iteration, determine_optimal_points (max_lag=None for ols and "
-    "ensemble ols: the oracle takes the reported num_lags and checks the normal equations through the first num_lags MSD points), "
+    "ensemble ols: the oracle takes the reported num_lags and checks the normal equations through the first num_lags MSD points; "
+    "the single track and the ensemble of identical copies of it must report the same num_lags and line - asserted for tracks "
+    "without missing frames, where the track length ensemble_ols derives (lags + 1, theorem ensemble_identical_curve) is the "
+    "number of points; with missing frames the two differ on the unchanged library, which warns on both paths that the automatic "
+    "number of lags is then unreliable: observation, corpus auto_lags_missing_frames_observation; not asserted either when a "
+    "least-squares line through leading MSD points has an exactly zero slope/intercept, i.e. a sign the heuristic branches on is rounding noise), "
     "GLS under position scaling (absolute tolerance 1e-4 in the iteration), blur = nan kymographs, groups mixing kymographs with "
     "different line times, recovery of D on simulated Brownian tracks (statistical, 5-sigma band on the group the simulation "
     "returned; that the returned tracks carry the simulated line time is checked exactly, for sessions of several simulations)",
